@@ -138,6 +138,7 @@ def run(ctx):
     vc = collections.Counter()
     fam = collections.Counter()
     extra_rows = 0
+    extra_answers = collections.Counter()   # public answers given by objects holding rows left by is_satisfiable()
     reported = collections.Counter()
     distinct = set()
     nontrivial = 0
@@ -165,6 +166,22 @@ def run(ctx):
                 nontrivial += 1
                 if len(samples) < 2:
                     samples.append([l[:160] for l in cl[:14]])
+        # objects that hold branching rows appended by is_satisfiable(): every later public answer (solve(),
+        # optimal_value(), feasible_point()) is judged against the reference of the USER's data
+        grown = set(l.split()[1] for l in lines if l.startswith("extra "))
+        opos = 0
+        for hist in base.split_histories(old):
+            b0 = old.index(hist[0], opos)
+            opos = b0 + 1
+            if hist[0].split()[1] in grown:
+                seen_sat = False
+                for i, l in enumerate(hist):
+                    t = l.split()
+                    if t[0] == "obs" and t[2] == "sat":
+                        seen_sat = True
+                    elif t[0] == "obs" and seen_sat:
+                        v = overd.get(b0 + i)
+                        extra_answers[v[0] if v else "unjudged"] += 1
         bad_cases = collections.OrderedDict()
         for v in verd:
             vc[v[0] + ":" + v[2]] += 1
@@ -219,12 +236,19 @@ def run(ctx):
         "tree_size_histogram": dict(sorted(tree_sizes.items(), key=lambda kv: int(kv[0]))),
         "driver_stats": dict(tot), "verdicts": dict(vc),
         "objects_holding_branch_rows_left_by_is_satisfiable": extra_rows,
+        "public_answers_after_is_satisfiable_grew_the_object": dict(extra_answers),
         "public_answers_judged_by_reference": dict((k, v) for k, v in ostats.items() if k in ("ok", "skip", "MISMATCH")),
         "reported_classes": dict(reported),
     }
     ctx.assumptions += [
         "stage 3: the LP machinery below solve_mip is an oracle in the model; its hypothesis (the statement of C06.lp_spec and "
         "a feasible point attaining it) is CHECKED on every journalled node against the verified LP reference",
+        "is_satisfiable() (a const method) appends the right-branch rows of its search to the object's input_cs (visible through "
+        "constraints_begin/end); C06 speaks about the ANSWERS: they are unchanged (C06.is_satisfiable_leaves_rows_harmless: the "
+        "feasible integral points are the same), and every answer such a grown object gives later (after more constraints / a new "
+        "objective) is judged against the reference of the user's data (cov: public_answers_after_is_satisfiable_grew_the_object); "
+        "the copy constructor resetting first_pending_constraint and the stale incumbent flag after an UNBOUNDED return of solve_mip "
+        "are internal and not observable in any answer (the former is exercised by the copy operations of harness/c06_mip.cc)",
         "termination of branch-and-bound is proved only for integer variables bounded in the relaxation "
         "(C06.solve_mip_terminates_partial); the model is fuelled, soundness holds for every fuel",
     ]
